@@ -251,7 +251,9 @@ void drv_apply(const char* op)
   else if(!strcmp(op, "insert"))
   {
     if(K != K_LIST || p < 0 || p > n) NOP();
-    TList::Iterator it = x.l->insert(listAt(*x.l, p), Tracked((int)v));
+    // positions 0 and n are passed as the expressions begin() / end() themselves (references to the container's own members:
+    // an operation that re-seats them while it still uses its argument goes wrong only then)
+    TList::Iterator it = p == 0 ? x.l->insert(x.l->begin(), Tracked((int)v)) : p == n ? x.l->insert(x.l->end(), Tracked((int)v)) : x.l->insert(listAt(*x.l, p), Tracked((int)v));
     r = it == x.l->end() ? -1 : ser((*it).serial);
     if(it != x.l->end()) keepList(*x.l, *it, it);
   }
@@ -288,15 +290,15 @@ void drv_apply(const char* op)
   else if(!strcmp(op, "insertall"))
   {
     if(!same || K != K_LIST || p < 0 || p > n) NOP();
-    TList::Iterator it = x.l->insert(listAt(*x.l, p), *y.l);
+    TList::Iterator it = p == 0 ? x.l->insert(x.l->begin(), *y.l) : p == n ? x.l->insert(x.l->end(), *y.l) : x.l->insert(listAt(*x.l, p), *y.l);
     r = it == x.l->end() ? -1 : ser((*it).serial);
   }
   else if(!strcmp(op, "rmat"))
   {
     if(p < 0 || p >= n) NOP();
-    if(K == K_LIST) { TList::Iterator it = x.l->remove(listAt(*x.l, p)); r = it == x.l->end() ? -1 : ser((*it).serial); }
-    else if(K == K_ARRAY) { TArray::Iterator it = x.a->remove(arrayAt(*x.a, p)); r = it == x.a->end() ? -1 : ser((*it).serial); }
-    else { TPool::Iterator it = x.p->remove(poolAt(*x.p, p)); r = it == x.p->end() ? -1 : ser((*it).serial); }
+    if(K == K_LIST) { TList::Iterator it = p == 0 ? x.l->remove(x.l->begin()) : x.l->remove(listAt(*x.l, p)); r = it == x.l->end() ? -1 : ser((*it).serial); }
+    else if(K == K_ARRAY) { TArray::Iterator it = p == 0 ? x.a->remove(x.a->begin()) : x.a->remove(arrayAt(*x.a, p)); r = it == x.a->end() ? -1 : ser((*it).serial); }
+    else { TPool::Iterator it = p == 0 ? x.p->remove(x.p->begin()) : x.p->remove(poolAt(*x.p, p)); r = it == x.p->end() ? -1 : ser((*it).serial); }
   }
   else if(!strcmp(op, "rmidx"))
   {
@@ -414,7 +416,7 @@ void drv_apply(const char* op)
   else if(!strcmp(op, "insertself"))
   {
     if(K != K_LIST || p < 0 || p > n) NOP();
-    TList::Iterator it = x.l->insert(listAt(*x.l, p), *x.l);
+    TList::Iterator it = p == 0 ? x.l->insert(x.l->begin(), *x.l) : p == n ? x.l->insert(x.l->end(), *x.l) : x.l->insert(listAt(*x.l, p), *x.l);
     r = it == x.l->end() ? -1 : ser((*it).serial);
   }
   else if(!strcmp(op, "appendown"))
